@@ -118,6 +118,9 @@ def call(fn, *a, **k):
     try:
         return "ok", fn(*a, **k)
     except EXPECTED_ERRORS as e:
+        if isinstance(e, AttributeError) and getattr(getattr(e, "obj", None), "__dict__", {}).get("_pycv_bypassed_ctor"):
+            raise EngineError(f"the harness built this {type(e.obj).__name__} without its constructor and the code reads an attribute the "
+                              f"harness did not provide: {e}") from e
         if proxy_caused(e):
             raise EngineError(f"a verifier proxy does not support an operation the code uses: {type(e).__name__}: {e}") from e
         return "raise", e
